@@ -1497,6 +1497,32 @@ Proof.
     rewrite Hids, refs_list_app, ids_of_app. cbn [refs_list]. rewrite app_nil_r. apply Permutation_refl.
 Qed.
 
+(* ArrayBuiltin::reverse (added with MemEval): an in-place permutation *)
+Lemma f_rev_ok : forall h v a, True -> HeapWF h -> erase h v = Some a -> vall nf v -> vall bsr v ->
+  f_rev h v <> MFault /\
+  (forall h' v' res, f_rev h v = MOk (h', v', res) ->
+     fpost unit unit af_rev [] (fun _ => []) (fun _ _ _ => True) h v a h' v' res).
+Proof.
+  intros h v a _ Hwf He Hnf Hbs. unfold f_rev.
+  destruct v as [x|b| |r0 a0 len|r0 a0 len cap|r a0 sid cap items];
+    try (split; [discriminate|intros ? ? ? E; discriminate]).
+  rewrite erase_arr in He. destruct (store_live h r a0 sid) eqn:Es; [|discriminate].
+  destruct (erase_list h items) as [ys|] eqn:El; [|discriminate]. inversion He; subst. clear He.
+  apply vall_arr in Hnf. destruct Hnf as [HnfS Hnfi]. apply vall_arr in Hbs. destruct Hbs as [_ Hbsi].
+  split; [discriminate|]. intros h' v' res E. inversion E; subst. clear E.
+  exists (VArr (rev ys)), tt. split; [reflexivity|].
+  split; [exact Hwf|]. split; [apply hext_refl|]. split; [reflexivity|]. split.
+  { rewrite erase_arr, Es.
+    assert (El' : erase_list h' (rev items) = Some (rev ys)).
+    { apply erase_list_Forall2. apply Forall2_rev. apply erase_list_Forall2. exact El. }
+    rewrite El'. reflexivity. }
+  split; [exact I|].
+  split; [apply vall_arr; split; [exact HnfS|apply Forall_rev; assumption]|].
+  split; [apply vall_arr; split; [exact I|apply Forall_rev; assumption]|].
+  rewrite !ids_arr, !app_nil_r, !ids_of_refs_list.
+  apply Permutation_flat_map. apply Permutation_sym. apply Permutation_rev.
+Qed.
+
 (* ------------------------------------------------------------------ *)
 (* one machine step preserves the invariant and the agreement *)
 
@@ -2178,6 +2204,34 @@ Proof.
     constructor; [exact Er|eauto using vals_any].
 Qed.
 
+Lemma step_reverse : forall x path, StepOK (OReverse x path).
+Proof.
+  intros x path. start. cbn [step m_tmps m_env m_heap].
+  pose proof (env_find_F2 _ x e ae Se) as Hf.
+  destruct (env_find x e) as [root|] eqn:Ef; [|ill].
+  destruct Hf as (aroot & Hafind & Hroot).
+  destruct (env_root_setup _ _ _ _ _ _ Ef HG) as (em & R & Hem & HpR & HpM & HG2 & Hnfroot).
+  destruct (good_split_t _ _ _ _ HG2) as (_ & _ & Hbsroot & _ & _).
+  destruct HG as (Hwf & HGrest). pose proof (conj Hwf HGrest) as HG.
+  destruct (modify_at_ok _ _ f_rev af_rev (fun _ => True) [] (fun _ => []) (fun _ _ _ => True)
+              (fun h0 v0 a0 => f_rev_ok h0 v0 a0) path h root aroot I Hwf Hroot Hnfroot Hbsroot) as [Hnofault Hok].
+  destruct (modify_at f_rev path h root) as [[[h2 root'] r]| |] eqn:Em; cbn [mbind];
+    [|ill|exfalso; apply Hnofault; reflexivity].
+  destruct (Hok _ _ _ eq_refl) as (aroot' & ar & Ham & Hwf2 & Hext2 & Hfr2 & Eroot' & _ & Hnfroot' & Hbsroot' & Hperm).
+  assert (HG3 : Good h2 (R ++ out) (root' :: tmps ++ all_saved ctl)).
+  { apply (good_replace h h2 (R ++ out) [root] [root']); [exact HG2|exact Hwf2|exact Hext2| | |].
+    - constructor; [rewrite Eroot'; discriminate|constructor].
+    - constructor; [exact Hbsroot'|constructor].
+    - cbn [flat_map]. rewrite !app_nil_r. rewrite !app_nil_r in Hperm. exact Hperm. }
+  destruct (env_set_some x root' e root Ef) as [e' He']. rewrite He'.
+  split; [discriminate|]. intros st' E. inversion E; subst. clear E.
+  destruct (env_replace_sim anyref h2 h2 x e em e' ae R root' aroot' (env_any _ _ _ _ Hext2 Se) Hem HpM
+              (hext_refl _ _) (Forall_vall_any R) Eroot' He') as (ae' & Hae' & Fe').
+  cbn [astep a_env a_out a_tmps a_ctl]. rewrite Hafind, Ham, Hae'. eexists. split; [reflexivity|]. split.
+  - apply mk_inv; [|rewrite Hfr2; exact HC]. eapply env_root_finish; eauto.
+  - apply mk_sim; [exact Fe'|eauto using vals_any|eauto using vals_any|eauto using ctl_any].
+Qed.
+
 (* ------------------------------------------------------------------ *)
 (* loops and calls *)
 
@@ -2415,6 +2469,7 @@ Proof.
   - apply step_loopiter.
   - apply step_loopiterend.
   - apply step_loopexit.
+  - apply step_reverse.
 Qed.
 
 Lemma run_ok : forall ops st ast, MemInv st -> Sim st ast ->
